@@ -358,9 +358,18 @@ def exp_coq(c, o):
 def to_coq(c, o):
     f = c["f"]
     if f == "testfn":
-        if c["fn"] == "ttest" or any(isinstance(v, float) and not float(v).is_integer() for r in c["resp"] for v in r):
+        if any(isinstance(v, float) and not math.isfinite(v) for r in c["resp"] for v in r):
             return None
         r = o["r"]
+        if c["fn"] == "ttest":
+            # the model computes the rational sign(t) t^2; undefined / infinite t (zero pooled variance) is left to the oracle
+            if r[0] == "ok" and not math.isfinite(r[1]):
+                return None
+            if r[0] == "ok" and abs(r[1]) > 1e3:
+                return None
+            fn = f"(TtestSqF {cnat(c['idx'])})"
+            impl = cres(("ok", Fraction(r[1]) * abs(Fraction(r[1]))) if r[0] == "ok" else r, cq)
+            return f"TestFnCase {fn} {clist(c['g'])} {clist(c['resp'], lambda r: qlist([Fraction(v) for v in r]))} {impl}"
         fn = f"({'MeanDiffF' if c['fn'] == 'mean_diff' else 'AnovaF'} {cnat(c['idx'])})"
         impl = cres(("ok", Fraction(r[1])) if r[0] == "ok" and math.isfinite(r[1]) else (r if r[0] == "exc" else ("exc", "Other")), cq)
         return f"TestFnCase {fn} {clist(c['g'])} {clist(c['resp'], lambda r: qlist([Fraction(v) for v in r]))} {impl}"
